@@ -82,7 +82,7 @@ func c05Run(ctx *core.Ctx) {
 	long = append(long, longMsg{repeatByte('L', 2500), 0})
 	nSeeded := 24
 	if ctx.Thorough() {
-		nSeeded = 1500
+		nSeeded = 25000
 	}
 	core.RunCases(ctx, func(emit func(c05Case)) {
 		idx := 0
